@@ -55,10 +55,33 @@ type JoinOpts struct {
 	// "*" - the kubelet has not posted any status)
 	AbsentResources []string
 	ExtraTaints     []corev1.Taint
+	// StartupTaintStyle: "" (as in the template), "value", "timeAdded" (see StyledStartupTaints)
+	StartupTaintStyle string
 }
 
 // JoinNode emulates the kubelet registering the Node of a launched NodeClaim: provider labels, the taints passed on
 // the kubelet command line (template taints, startup taints, the unregistered taint) and the not-ready taint.
+// StyledStartupTaints returns the startup taints as the node's agent / kubelet may have written them: a taint is
+// identified by key and effect, so the value ("value") or the timeAdded stamp ("timeAdded") may differ from the template.
+func StyledStartupTaints(in []corev1.Taint, style string, now time.Time) []corev1.Taint {
+	out := make([]corev1.Taint, 0, len(in))
+	for _, t := range in {
+		switch style {
+		case "value":
+			if t.Value == "" {
+				t.Value = "true"
+			} else {
+				t.Value = ""
+			}
+		case "timeAdded":
+			ts := metav1.NewTime(now)
+			t.TimeAdded = &ts
+		}
+		out = append(out, t)
+	}
+	return out
+}
+
 func (w *World) JoinNode(nc *v1.NodeClaim, o JoinOpts) *corev1.Node {
 	inst := w.Provider.Instances[nc.Status.ProviderID]
 	if inst == nil {
@@ -72,7 +95,7 @@ func (w *World) JoinNode(nc *v1.NodeClaim, o JoinOpts) *corev1.Node {
 	labels[corev1.LabelHostname] = name
 	labels[v1.NodePoolLabelKey] = nc.Labels[v1.NodePoolLabelKey]
 	taints := append([]corev1.Taint{}, nc.Spec.Taints...)
-	taints = append(taints, nc.Spec.StartupTaints...)
+	taints = append(taints, StyledStartupTaints(nc.Spec.StartupTaints, o.StartupTaintStyle, w.Clock.Now())...)
 	if !o.WithoutUnregisteredTaint {
 		taints = append(taints, v1.UnregisteredNoExecuteTaint)
 	}
